@@ -28,6 +28,10 @@ type dlServer struct {
 	faults bool
 	fatal  error
 	lat    bool
+	// streak of timeouts on one request key
+	streaks    bool // plain downloads only (C33)
+	streakKey  string
+	streakLeft int
 
 	window int // hash window size
 	// adversary
@@ -67,6 +71,15 @@ func (s *dlServer) wait(ctx context.Context) error {
 func (s *dlServer) fault(key string) error {
 	if !s.faults {
 		return nil
+	}
+	// a long streak of retryable timeouts on one request: any pattern must be ridden out
+	if s.streakLeft > 0 && key == s.streakKey {
+		s.streakLeft--
+		simrt.FaultFired("rpc-timeout", "%s (streak, %d to go)", key, s.streakLeft)
+		return tgerr.New(-503, "Timeout")
+	}
+	if s.streaks && s.streakKey == "" && s.tape.Coin(simrt.Fault, 1, 60) {
+		s.streakKey, s.streakLeft = key, simrt.Pick(s.tape, simrt.Fault, 3, 12, 25, 45)
 	}
 	switch s.tape.Choose(simrt.Fault, 16) {
 	case 0:
@@ -120,6 +133,22 @@ func (s *dlServer) UploadGetFile(ctx context.Context, req *tg.UploadGetFileReque
 		s.cdnReqs = 0
 		simrt.Ev("redirect", "token=%s", s.token)
 		return &tg.UploadFileCDNRedirect{DCID: 203, FileToken: s.token, EncryptionKey: s.key, EncryptionIv: s.iv, FileHashes: s.hashes(0)}, nil
+	}
+	// documented parameter rules of upload.getFile (core.telegram.org/api/files):
+	// precise: offset and limit divisible by 1 KiB, limit <= 1 MiB; otherwise
+	// divisible by 4 KiB, 1 MiB divisible by limit, request within one 1 MiB block
+	{
+		const kb, mb = 1024, 1 << 20
+		bad := req.Limit <= 0 || req.Limit > mb
+		if req.Precise {
+			bad = bad || req.Offset%kb != 0 || req.Limit%kb != 0
+		} else {
+			bad = bad || req.Offset%(4*kb) != 0 || req.Limit%(4*kb) != 0 || mb%req.Limit != 0 || req.Offset/mb != (req.Offset+int64(req.Limit)-1)/mb
+		}
+		if bad {
+			simrt.Ev("getFile-refused", "offset=%d limit=%d precise=%v", req.Offset, req.Limit, req.Precise)
+			return nil, tgerr.New(400, "LIMIT_INVALID")
+		}
 	}
 	data := s.f.bytes(req.Offset, req.Limit)
 	if s.corruptMaster && req.Offset <= s.corruptAt && s.corruptAt < req.Offset+int64(len(data)) {
@@ -295,6 +324,7 @@ func runDownload(t *testing.T, tape *simrt.Tape, env dst.Env, verified bool) *si
 	}
 	out := simrt.Run(t, tape, simrt.Options{Policy: -1}, func(sim *simrt.Sim) {
 		viol := func(rule, sig, format string, args ...any) { simrt.Violate(prop, rule, sig, format, args...) }
+		crossMB := false // the file reaches over a 1 MiB border of the CDN request rules
 		ps := simrt.Pick(tape, simrt.Cfg, 4096, 8192, 65536, 131072, 524288)
 		if !verified && tape.Coin(simrt.Cfg, 1, 3) {
 			ps = 1024 * (1 + tape.Choose(simrt.Cfg, 8)) // plain downloads take any part size
@@ -302,7 +332,8 @@ func runDownload(t *testing.T, tape *simrt.Tape, env dst.Env, verified bool) *si
 		if verified && tape.Coin(simrt.Cfg, 1, 3) {
 			// part sizes that neither divide nor are divided by the hash window:
 			// chunks then straddle window boundaries
-			ps = 4096 * simrt.Pick(tape, simrt.Cfg, 5, 12, 24, 40)
+			ps = 4096 * simrt.Pick(tape, simrt.Cfg, 5, 11, 12, 13, 19, 24, 40)
+			crossMB = tape.Coin(simrt.Cfg, 1, 2)
 		}
 		threads := tape.Range(simrt.Cfg, 1, 8)
 		parallel := tape.Coin(simrt.Cfg, 1, 2)
@@ -326,10 +357,14 @@ func runDownload(t *testing.T, tape *simrt.Tape, env dst.Env, verified bool) *si
 		if size > 3<<20 {
 			size = 3<<20 + int64(tape.Choose(simrt.Wl, 4096))
 		}
+		if crossMB {
+			size = 1<<20 + int64(tape.Choose(simrt.Wl, 1<<20))
+		}
 		f := file{seed: tape.Uint64(simrt.Wl), size: size}
 		typ := simrt.Pick[tg.StorageFileTypeClass](tape, simrt.Wl, &tg.StorageFileJpeg{}, &tg.StorageFileMp4{}, &tg.StorageFileUnknown{}, &tg.StorageFilePartial{})
 		srv := &dlServer{tape: tape, f: f, typ: typ, flood: newFloodLog(), faults: tape.Coin(simrt.Cfg, 3, 4), fatal: genFatal(tape), lat: tape.Coin(simrt.Cfg, 1, 2)}
 		srv.window = simrt.Pick(tape, simrt.Cfg, 4096, 8192, 16384, 131072)
+		srv.streaks = !verified
 		verifyFlag := false
 		if verified {
 			mode := tape.Choose(simrt.Cfg, 3) // 0: master + WithVerify; 1: CDN, inline verification; 2: CDN + WithVerify
